@@ -216,7 +216,7 @@ pub const TYPE_OPTS: &[&str] = &[
     "font",
     "other",
 ];
-pub const TAGS: &[&str] = &["t1", "t2", "t3"];
+pub const TAGS: &[&str] = &["t1", "t2", "T3-x"];
 pub const REDIRECTS: &[&str] = &["noop.js", "1x1.gif", "noop.txt", "missing.js", "perm.js", "nooptext", "fnlib.fn", "noop-alt", "1x1-blank.gif", "blank", "noopjs"];
 pub const CSPS: &[&str] = &["script-src 'none'", "img-src 'self'", "frame-src *", "worker-src 'none'"];
 pub const CLASSES: &[&str] = &["ad", "ads", "banner", "sponsor", "promo", "box", "реклама"];
@@ -878,7 +878,17 @@ pub fn gen_world(seed: u64, p: &Profile) -> World {
             let nc = r.range(1, 4);
             let ni = r.range(0, 3);
             ClassIds {
-                classes: (0..nc).map(|_| pick_s(&mut r, CLASSES)).collect(),
+                // (also the compound names the selector shapes produce: `.c\:x` is the class `c:x`, `.c-i` the class `c-i`)
+                classes: (0..nc)
+                    .map(|_| {
+                        let c = pick_s(&mut r, CLASSES);
+                        match r.below(10) {
+                            0 | 1 => format!("{}:x", c),
+                            2 => format!("{}-{}", c, r.pick(IDS)),
+                            _ => c,
+                        }
+                    })
+                    .collect(),
                 ids: (0..ni).map(|_| pick_s(&mut r, IDS)).collect(),
             }
         })
